@@ -382,4 +382,80 @@ theorem serializeTail_eq_canonical (c : Codec) (e : Endian) (d raw : Bytes) (K :
   rw [hhdr, ← hdata]
   simp only [ptrTable, textSection, List.append_assoc]
 
+
+/-! ### the c-string loop and the whole of `serialize` -/
+
+/-- The content of an archive without pending c-strings. -/
+def contentOf (a : BinArchive) : Content := ⟨a.data, a.text, a.pointers, a.labels⟩
+
+def cstrSorted (c : Codec) (a : BinArchive) : List (Str × List Nat) := a.cstrings.mergeSort (cstrLe c)
+
+/-- The distinct pending c-strings in pool order. -/
+def cstrKeys (c : Codec) (a : BinArchive) : List Str := dedup ((cstrSorted c a).map (·.1))
+
+/-- The c-string pool appended to the data: every pending c-string once, NUL-terminated, in
+the order of their encodings, padded with zeros to a multiple of four bytes. -/
+def cstrPool (c : Codec) (a : BinArchive) : Bytes := padTo4 ((cstrKeys c a).flatMap (entry c.enc))
+
+/-- One internal pointer per c-string use, into the pool. -/
+def cstrPointers (c : Codec) (a : BinArchive) : List (Nat × Nat) :=
+  (cstrSorted c a).flatMap (fun p => p.2.map (fun addr =>
+    (addr, a.data.length + offsetIn c.enc (cstrKeys c a) p.1)))
+
+/-- `contentOf⁺` (DESIGN §6 C01): the content that the image of an archive with pending c-strings
+denotes — the pool has become data and every c-string use an internal pointer into it. -/
+def contentPlus (c : Codec) (a : BinArchive) : Content :=
+  ⟨a.data ++ cstrPool c a, a.text, a.pointers ++ cstrPointers c a, a.labels⟩
+
+theorem cstring_fold (c : Codec) (n : Nat) (cstrs : List (Str × List Nat))
+    (henc : ∀ p ∈ cstrs, ∃ b, c.enc p.1 = some b) :
+    cstrs.foldlM (cstringStep c n) ((⟨[], []⟩ : TextPool), ([] : List (Nat × Nat))) =
+      .ok (poolOf c.enc (dedup (cstrs.map (·.1))),
+           cstrs.flatMap (fun p => p.2.map (fun addr =>
+             (addr, n + offsetIn c.enc (dedup (cstrs.map (·.1))) p.1)))) := by
+  have h := fold_addText c (fun p : Str × List Nat => p.1)
+    (fun (acc : List (Nat × Nat)) p off => acc ++ p.2.map (fun addr => (addr, n + off)))
+    (fun _ => True) (fun _ => True) (cstringStep c n)
+    (by intro tp s x tp' off _ _ ha; simp only [cstringStep, ha])
+    (by intros; trivial) cstrs [] [] trivial (by intros; trivial) henc
+  rw [addKeys_nil, foldl_append_flatMap] at h
+  simpa [poolOf] using h
+
+/-- The part of the quantifier of C01/C02 that `serialize` needs in order to succeed: annotated
+cells inside the data, every string encodable, image smaller than 4 GiB. -/
+structure SerDomain (c : Codec) (a : BinArchive) : Prop where
+  ptrIn : ∀ p ∈ a.pointers, p.1 + 4 ≤ a.data.length
+  textIn : ∀ p ∈ a.text, p.1 + 4 ≤ a.data.length
+  cstrIn : ∀ p ∈ a.cstrings, ∀ x ∈ p.2, x + 4 ≤ a.data.length
+  encText : ∀ p ∈ a.text, ∃ b, c.enc p.2 = some b
+  encLabels : ∀ p ∈ a.labels, ∀ n ∈ p.2, ∃ b, c.enc n = some b
+  encCStr : ∀ p ∈ a.cstrings, ∃ b, c.enc p.1 = some b
+  small : a.data.length + (cstrPool c a).length < 2 ^ 32
+
+/-- **`serialize` writes the canonical image of `contentPlus`.** -/
+theorem serialize_eq_canonical_plus (c : Codec) (a : BinArchive) (h : SerDomain c a) :
+    serialize c a = .ok (canonical c.enc a.endian (contentPlus c a)) := by
+  unfold serialize
+  have henc : ∀ p ∈ cstrSorted c a, ∃ b, c.enc p.1 = some b := by
+    intro p hp; exact h.encCStr p (List.mem_mergeSort.mp hp)
+  have hf := cstring_fold c a.data.length (cstrSorted c a) henc
+  unfold cstrSorted at hf
+  rw [hf]
+  simp only [poolOf]
+  apply serializeTail_eq_canonical c a.endian a.data _ (contentPlus c a) rfl
+  · intro p hp
+    rcases List.mem_append.mp hp with hp | hp
+    · exact h.ptrIn p hp
+    · obtain ⟨q, hq, hp⟩ := List.mem_flatMap.mp hp
+      obtain ⟨x, hx, rfl⟩ := List.mem_map.mp hp
+      exact h.cstrIn q (List.mem_mergeSort.mp hq) x hx
+  · exact h.textIn
+  · exact h.encText
+  · exact h.encLabels
+  · exact h.small
+
+theorem contentPlus_of_no_cstrings (c : Codec) (a : BinArchive) (h : a.cstrings = []) :
+    contentPlus c a = contentOf a := by
+  simp [contentPlus, contentOf, cstrPool, cstrKeys, cstrSorted, cstrPointers, h, dedup, dedupAux, padTo4]
+
 end Mila.Ser
